@@ -38,7 +38,7 @@ theorem anteStepM_effect (mode : Mode) (tx : Tx) (s s' : State) (name : String)
       | (cases h; exact .none rfl)
       | (simp only [stepValidateBasic, bind_eq_ok, pure_eq_ok] at h; obtain ⟨_, _, _, _, rfl⟩ := h; exact .none rfl)
       | (exact .none (feeDecorator_id _ _ _ _ _ h))
-      | (simp only [stepSetPubKey, bind_eq_ok, pure_eq_ok] at h; obtain ⟨_, _, _, _, rfl⟩ := h; exact .none rfl)
+      | (simp only [stepSetPubKey, bind_eq_ok, pure_eq_ok] at h; obtain ⟨_, _, _, _, _, _, rfl⟩ := h; exact .none rfl)
       | skip
     · -- CheckLockedUnd
       simp only [unlockDecorator, bind_eq_ok] at h
